@@ -36,6 +36,51 @@ Proof.
   repeat match goal with |- context [str_eqb (map ascii_lower s) ?x] => destruct (str_eqb (map ascii_lower s) x) end; reflexivity.
 Qed.
 
+(* src/schema/presets.rs: the enum, the schema each preset stands for (fixed builders, smart tier selection, build context) and the name table *)
+From ZV Require Import Cli.
+Definition model_of (p : src_preset) : preset :=
+  match p with
+  | SP_Standard => Smart Standard | SP_StandardNoContext => SmartNoContext Standard | SP_StandardContext => SmartContext Standard
+  | SP_StandardBase => Fixed Standard TBase false | SP_StandardBasePrerelease => Fixed Standard TPre false
+  | SP_StandardBasePrereleasePost => Fixed Standard TPrePost false | SP_StandardBasePrereleasePostDev => Fixed Standard TPrePostDev false
+  | SP_StandardBaseContext => Fixed Standard TBase true | SP_StandardBasePrereleaseContext => Fixed Standard TPre true
+  | SP_StandardBasePrereleasePostContext => Fixed Standard TPrePost true | SP_StandardBasePrereleasePostDevContext => Fixed Standard TPrePostDev true
+  | SP_Calver => Smart Calver | SP_CalverNoContext => SmartNoContext Calver | SP_CalverContext => SmartContext Calver
+  | SP_CalverBase => Fixed Calver TBase false | SP_CalverBasePrerelease => Fixed Calver TPre false
+  | SP_CalverBasePrereleasePost => Fixed Calver TPrePost false | SP_CalverBasePrereleasePostDev => Fixed Calver TPrePostDev false
+  | SP_CalverBaseContext => Fixed Calver TBase true | SP_CalverBasePrereleaseContext => Fixed Calver TPre true
+  | SP_CalverBasePrereleasePostContext => Fixed Calver TPrePost true | SP_CalverBasePrereleasePostDevContext => Fixed Calver TPrePostDev true
+  end.
+
+(* every preset of the source, on every variable state, stands for the schema the model says (and the source's unwrap()s / panic arm are not reached) *)
+Theorem schema_with_zerv_as_source p vs : src_schema_with_zerv p vs = Some (schema_with_zerv (model_of p) vs).
+Proof.
+  destruct p; cbn [src_schema_with_zerv src_schema model_of schema_with_zerv]; try reflexivity;
+    unfold src_with_smart_build_context, src_with_build_context, src_smart_standard_schema, src_smart_calver_schema, smart_tier, opt_true, opt_pos, is_some;
+    destruct (v_dirty vs) as [[|]|]; destruct (v_distance vs) as [n|]; try destruct (0 <? n); destruct (v_pre vs); destruct (v_post vs); reflexivity.
+Qed.
+
+(* the name table: every name of the source is read by the model's parser to the same preset, and every preset has a name *)
+Theorem preset_names_as_source :
+  map (fun e => preset_of_name (fst e)) src_preset_names = map (fun e => Some (model_of (snd e))) src_preset_names.
+Proof. vm_compute. reflexivity. Qed.
+
+Theorem every_preset_named p : In p (map snd src_preset_names).
+Proof. destruct p; vm_compute; tauto. Qed.
+
+(* the schema of every preset passes the placement validation that ZervSchema::new_with_precedence / set_build apply (the unwrap()s cannot fail) *)
+Theorem preset_schemas_valid p vs s : src_schema_with_zerv p vs = Some s -> schema_validate s = true.
+Proof.
+  rewrite schema_with_zerv_as_source. intros E. inversion E; subst s. clear E.
+  destruct p; cbn [model_of schema_with_zerv]; unfold smart_tier, opt_true, opt_pos, is_some;
+    destruct (v_dirty vs) as [[|]|]; destruct (v_distance vs) as [n|]; try destruct (0 <? n); destruct (v_pre vs); destruct (v_post vs); vm_compute; reflexivity.
+Qed.
+
+Print Assumptions schema_with_zerv_as_source.
+Print Assumptions preset_names_as_source.
+Print Assumptions every_preset_named.
+Print Assumptions preset_schemas_valid.
+
 Print Assumptions component_tables_as_source.
 Print Assumptions default_prec_as_source.
 Print Assumptions valid_patterns_as_source.
